@@ -181,7 +181,7 @@ class Inst:
                  unwindset=(), checks=(), malloc_fail=False, timeout=None, solver="kissat",
                  objbits=None, models=("env_stubs.c",), simd=False, desc=None, slice_=True,
                  mem_gb=12, extra_cbmc=(), unwind_fail_is_violation=False, lib_defs=(),
-                 ub_checks_informational=True, witness=True, nondet_static=False, shadow=None):
+                 ub_checks_informational=True, witness=True, nondet_static=False, shadow=None, replace_calls=()):
         self.name, self.harness = name, harness
         self.defines = dict(defines or {})
         self.link, self.exclude = link, tuple(exclude)
@@ -197,6 +197,7 @@ class Inst:
         self.witness = witness
         self.nondet_static = nondet_static
         self.shadow = shadow
+        self.replace_calls = tuple(replace_calls)
 
     def key(self):
         return self.name
@@ -283,6 +284,14 @@ def build_instance(ctx, inst, witness):
     r = subprocess.run(["goto-cc", "-o", gb] + objs, capture_output=True, text=True)
     if r.returncode != 0:
         raise RuntimeError("goto-cc link failed for %s:\n%s" % (inst.name, r.stderr[-4000:]))
+    if inst.replace_calls:
+        # assume-guarantee cut: calls to f are redirected to a harness-supplied contract stub g (CBMC run only;
+        # the native replay runs the real f)
+        gb2 = os.path.join(d, "linked-rc.gb")
+        r = subprocess.run(["goto-instrument", "--replace-calls", ",".join(inst.replace_calls), gb, gb2], capture_output=True, text=True)
+        if r.returncode != 0 or not os.path.exists(gb2):
+            raise RuntimeError("goto-instrument --replace-calls failed for %s:\n%s" % (inst.name, (r.stdout + r.stderr)[-2000:]))
+        gb = gb2
     return gb
 
 
